@@ -275,7 +275,18 @@ Apply(B, c) ==
       [] c.op = "beamline" -> [B EXCEPT !.content = @ \o BeamlineEntries(c)]
       [] c.op = "data"     -> [B EXCEPT !.content = Append(@, DataEntry(c))]
       [] c.op = "calib"    -> [B EXCEPT !.content = Append(@, CalibEntry(c))]
+      [] c.op = "rename"   -> [B EXCEPT !.name = c.name]      \* the name setter of this builder (no other builder changes)
       [] OTHER -> B          \* copy
 
-SaveDoc(name, calls) == LET B == FoldLeft(Apply, B0(name), calls) IN << [name |-> name, items |-> SaveItems(B)] >>
+SaveDoc(name, calls) == LET B == FoldLeft(Apply, B0(name), calls) IN << [name |-> B.name, items |-> SaveItems(B)] >>
+
+-----------------------------------------------------------------------------
+(* The version identifier.  A CIF 1.1 file may start with the structured comment        *)
+(* #\#CIF_1.1 ; a file that announces another version is not a CIF 1.1 file.             *)
+MagicPrefix == <<HASH, BSL, HASH, 67, 73, 70, 95>>          \* #\#CIF_
+MagicOK(text) ==
+    HasPrefix(text, MagicPrefix) =>
+      /\ Len(text) >= Len(MagicPrefix) + 3
+      /\ SubSeq(text, Len(MagicPrefix) + 1, Len(MagicPrefix) + 3) = <<49, 46, 49>>      \* 1.1
+      /\ (Len(text) = Len(MagicPrefix) + 3 \/ IsBlank(text[Len(MagicPrefix) + 4]) \/ text[Len(MagicPrefix) + 4] = CR)
 =============================================================================
